@@ -33,6 +33,7 @@ fn slot_kind(s: &Slot) -> &'static str {
         Slot::S { .. } => "String",
         Slot::Bx { .. } => "Box<[El]>",
         Slot::Canary { .. } => "raw block",
+        Slot::LeakedE { .. } | Slot::LeakedB { .. } => "leaked slice",
         Slot::Dead => "dead",
     }
 }
@@ -165,7 +166,7 @@ impl<'b> Machine<'b> {
         self.ctx.st(V::Ops);
         let [code, sel, a, b, c] = op;
         let code = code % NVOPS;
-        if code == 25 || self.slots.iter().all(|s| matches!(s, Slot::Dead | Slot::Canary { .. })) {
+        if code == 25 || self.slots.iter().all(|s| matches!(s, Slot::Dead | Slot::Canary { .. } | Slot::LeakedE { .. } | Slot::LeakedB { .. })) {
             self.new_vec(sel, a, b, c);
             self.check_all();
             return;
@@ -176,7 +177,7 @@ impl<'b> Machine<'b> {
             return;
         }
         // pick a live non-canary slot
-        let live: Vec<usize> = self.slots.iter().enumerate().filter(|(_, s)| !matches!(s, Slot::Dead | Slot::Canary { .. })).map(|(i, _)| i).collect();
+        let live: Vec<usize> = self.slots.iter().enumerate().filter(|(_, s)| !matches!(s, Slot::Dead | Slot::Canary { .. } | Slot::LeakedE { .. } | Slot::LeakedB { .. })).map(|(i, _)| i).collect();
         let i = live[(sel as usize * live.len()) >> 8];
         if self.ctx.last_grower != usize::MAX && self.ctx.last_grower != i && matches!(code, 0 | 2 | 7 | 8 | 9 | 17) {
             self.ctx.st(V::Interleaved);
@@ -354,6 +355,18 @@ impl<'b> Machine<'b> {
                         msgs.push(("C13", format!("slot {i} boxed slice holds {:?} but std holds {:?}", a, b)));
                     }
                 }
+                Slot::LeakedE { s, t } => {
+                    let a: Vec<u32> = s.iter().map(|x| x.val()).collect();
+                    let b: Vec<u32> = t.iter().map(|x| x.val()).collect();
+                    if a != b {
+                        msgs.push(("C13", format!("slot {i}: the slice returned by into_bump_slice now reads {:?} but held {:?} when it was returned", a, b)));
+                    }
+                }
+                Slot::LeakedB { s, t } => {
+                    if s != t {
+                        msgs.push(("C13", format!("slot {i}: the byte slice returned by into_bump_slice now reads {:?} but held {:?} when it was returned", s, t)));
+                    }
+                }
                 Slot::Canary { ptr, len, id } => {
                     if let Some(j) = unsafe { check_pat(*id, *ptr as *const u8, *len, true) } {
                         msgs.push(("C13", format!("slot {i}: neighbouring raw block of {len} bytes was modified at byte {j}")));
@@ -408,7 +421,7 @@ impl<'b> Machine<'b> {
         let slots = std::mem::take(&mut self.slots);
         for s in slots {
             match s {
-                Slot::Dead | Slot::Canary { .. } => {}
+                Slot::Dead | Slot::Canary { .. } | Slot::LeakedE { .. } | Slot::LeakedB { .. } => {}
                 other => {
                     self.drop_slot_value(other);
                 }
